@@ -51,6 +51,22 @@ type Monitors struct {
 	repos map[string]*repoShadow
 	sess  map[int]*sessShadow
 	obs   bool
+	pre   map[string][]string
+	fsBase []string
+	prevStore  string
+	diskShadow map[string]*repoShadow
+	// every digest a history has touched in a repository (for the restart observation)
+	everSeen map[string]map[string]bool
+}
+
+func (m *Monitors) note(repo, real string) {
+	if m.everSeen == nil {
+		m.everSeen = map[string]map[string]bool{}
+	}
+	if m.everSeen[repo] == nil {
+		m.everSeen[repo] = map[string]bool{}
+	}
+	m.everSeen[repo][real] = true
 }
 
 func newMonitors(w *bufio.Writer) *Monitors {
@@ -74,20 +90,57 @@ func (m *Monitors) repo(r string) *repoShadow {
 }
 
 func (m *Monitors) reset(h *H) {
+	m.everSeen = nil
+	m.prevStore = kv(h.confToks, "store")
+	m.diskShadow = map[string]*repoShadow{}
 	m.repos = map[string]*repoShadow{}
 	m.sess = map[int]*sessShadow{}
 }
 
+func copyShadow(in map[string]*repoShadow) map[string]*repoShadow {
+	out := map[string]*repoShadow{}
+	for k, rs := range in {
+		c := &repoShadow{blobs: map[string][]byte{}, mans: map[string]*manShadow{}, tags: map[string]string{}, pushed: map[string]bool{}, dirty: rs.dirty, refDirty: rs.refDirty}
+		for a, b := range rs.blobs {
+			c.blobs[a] = b
+		}
+		for a, b := range rs.mans {
+			ms := *b
+			ms.mts = map[string]bool{}
+			for x := range b.mts {
+				ms.mts[x] = true
+			}
+			c.mans[a] = &ms
+		}
+		for a, b := range rs.tags {
+			c.tags[a] = b
+		}
+		for a := range rs.pushed {
+			c.pushed[a] = true
+		}
+		out[k] = c
+	}
+	return out
+}
+
+// restarted: sessions do not survive a restart; the memory store loses everything, a memory store over a
+// directory falls back to what the directory holds
 func (m *Monitors) restarted(h *H) {
-	// sessions do not survive a restart; the memory store loses everything
 	m.sess = map[int]*sessShadow{}
-	st := kv(h.confToks, "store")
-	if st != "dir" {
+	if m.prevStore == "dir" {
+		m.diskShadow = copyShadow(m.repos)
+	}
+	switch kv(h.confToks, "store") {
+	case "dir":
+	case "memdir":
+		m.repos = copyShadow(m.diskShadow)
+	default:
 		m.repos = map[string]*repoShadow{}
 	}
 	for _, rs := range m.repos {
 		rs.refDirty = true // configuration may have changed
 	}
+	m.prevStore = kv(h.confToks, "store")
 }
 
 var reRepo = regexp.MustCompile(`^[a-z0-9]+(?:(?:\.|_|__|-+)[a-z0-9]+)*(?:\/[a-z0-9]+(?:(?:\.|_|__|-+)[a-z0-9]+)*)*$`)
@@ -162,6 +215,7 @@ func (rs *repoShadow) holds(d string) bool {
 }
 
 func (m *Monitors) ackBlob(h *H, repo, real string, b []byte) {
+	m.note(repo, real)
 	rs := m.repo(repo)
 	rs.blobs[real] = append([]byte{}, b...)
 	rs.pushed[string(b)] = true
@@ -711,6 +765,7 @@ func (m *Monitors) mPut(h *H, a []string, r Resp) {
 		rs.mans[real] = ms
 	}
 	ms.blobGone = false
+	m.note(repo, real)
 	ms.mts[mt] = true
 	rs.pushed[string(body)] = true
 	if isTag {
@@ -962,4 +1017,307 @@ func (m *Monitors) raw(h *H, a []string, r Resp) {
 func (m *Monitors) gc(h *H, repo string) {
 	rs := m.repo(repo)
 	rs.dirty = true
+}
+
+// ---------------------------------------------------------------- directory level (C10, C14)
+
+// layoutOK: every repository directory that holds content is a valid OCI layout describing the API state:
+// oci-layout with the supported version, a parseable index.json with unique tags whose entries each have a blob of
+// the recorded size and digest, blobs stored as blobs/<alg>/<hex> with matching content (C10, also C01 on disk)
+func (m *Monitors) layoutOK(h *H) {
+	if kv(h.confToks, "store") != "dir" || h.root == "" {
+		return
+	}
+	_ = filepath.Walk(h.root, func(p string, info os.FileInfo, err error) error {
+		if err != nil || !info.IsDir() {
+			return nil
+		}
+		rel, _ := filepath.Rel(h.root, p)
+		base := filepath.Base(p)
+		if base == "blobs" || base == "_uploads" {
+			// a blobs/ directory belongs to the repository above it
+			if base == "blobs" {
+				m.repoLayout(h, filepath.Dir(p), filepath.Dir(rel))
+			}
+			return filepath.SkipDir
+		}
+		return nil
+	})
+}
+
+func (m *Monitors) repoLayout(h *H, dir, name string) {
+	nBlobs := 0
+	algs, _ := os.ReadDir(filepath.Join(dir, "blobs"))
+	for _, a := range algs {
+		if !a.IsDir() {
+			continue
+		}
+		es, _ := os.ReadDir(filepath.Join(dir, "blobs", a.Name()))
+		for _, e := range es {
+			nBlobs++
+			b, err := os.ReadFile(filepath.Join(dir, "blobs", a.Name(), e.Name()))
+			if err != nil {
+				continue
+			}
+			alg := digest.Algorithm(a.Name())
+			if !alg.Available() || alg.FromBytes(b).Encoded() != e.Name() {
+				m.flag(h, "C10.blob-name", fmt.Sprintf("%s: blobs/%s/%s does not hash to its name", name, a.Name(), e.Name()[:12]))
+			}
+		}
+	}
+	if nBlobs == 0 {
+		return // holds no content
+	}
+	lb, err := os.ReadFile(filepath.Join(dir, "oci-layout"))
+	var l types.Layout
+	if err != nil || json.Unmarshal(lb, &l) != nil || l.Version != types.LayoutVersion {
+		m.flag(h, "C10.layout-file", fmt.Sprintf("%s holds %d blobs but has no valid oci-layout", name, nBlobs))
+	}
+	ib, err := os.ReadFile(filepath.Join(dir, "index.json"))
+	var idx types.Index
+	if err != nil || json.Unmarshal(ib, &idx) != nil {
+		m.flag(h, "C10.index-file", fmt.Sprintf("%s holds %d blobs but index.json is missing or unparsable", name, nBlobs))
+		return
+	}
+	tags := map[string]int{}
+	rs := m.repo(name)
+	for _, d := range idx.Manifests {
+		if t := d.Annotations[types.AnnotRefName]; t != "" {
+			tags[t]++
+			if tags[t] == 2 {
+				m.flag(h, "C10.index-tags", fmt.Sprintf("%s: tag %s twice in index.json", name, t))
+			}
+		}
+		if d.Digest.Validate() != nil {
+			m.flag(h, "C10.index-entry", fmt.Sprintf("%s: index.json entry with invalid digest %q", name, d.Digest))
+			continue
+		}
+		fi, err := os.Stat(filepath.Join(dir, "blobs", d.Digest.Algorithm().String(), d.Digest.Encoded()))
+		if err != nil {
+			// an entry may lack its blob only after an API blob delete (until the next collection)
+			if ms, ok := rs.mans[d.Digest.String()]; ok && ms.blobGone {
+				continue
+			}
+			if rs.dirty || rs.refDirty {
+				continue
+			}
+			m.flag(h, "C10.index-entry", fmt.Sprintf("%s: index.json lists %s but the blob is missing", name, h.tk.tokDigest(d.Digest.String())))
+		} else if fi.Size() != d.Size {
+			m.flag(h, "C10.index-entry", fmt.Sprintf("%s: index.json records size %d for %s, file has %d", name, d.Size, h.tk.tokDigest(d.Digest.String()), fi.Size()))
+		}
+	}
+	// the disk describes the API state: every tag the API resolves is in index.json and vice versa
+	if !rs.dirty {
+		for t, real := range rs.tags {
+			found := false
+			for _, d := range idx.Manifests {
+				if d.Annotations[types.AnnotRefName] == t && d.Digest.String() == real {
+					found = true
+				}
+			}
+			if !found {
+				m.flag(h, "C10.disk-eq-api", fmt.Sprintf("%s: tag %s -> %s acknowledged but not in index.json", name, t, h.tk.tokDigest(real)))
+			}
+		}
+		for t := range tags {
+			if _, ok := rs.tags[t]; !ok {
+				m.flag(h, "C10.disk-eq-api", fmt.Sprintf("%s: index.json has tag %s that the API state does not", name, t))
+			}
+		}
+	}
+}
+
+// observe: the read surface of a repository over the universe the history has touched (used around a restart)
+func (m *Monitors) observe(h *H, repo string) []string {
+	rs := m.repo(repo)
+	out := []string{}
+	add := func(what string, r Resp) {
+		code := r.Code
+		if r.Status == 404 {
+			code = "" // which not-found code is given for an item whose blob was deleted through the API is not judged
+		}
+		out = append(out, fmt.Sprintf("%s -> %d %s %s %s %s", what, r.Status, code, r.Dcd, r.Body, r.Ct))
+	}
+	add("TAGS", h.do("GET", "/v2/"+repo+"/tags/list", reqOpt{mode: "tags"}))
+	acc := map[string][]string{"Accept": {mtReal["ocim"], mtReal["ocii"], mtReal["dockm"], mtReal["dockl"]}}
+	digs := map[string]bool{}
+	for d := range rs.blobs {
+		digs[d] = true
+	}
+	for d := range rs.mans {
+		digs[d] = true
+	}
+	for d := range m.everSeen[repo] {
+		digs[d] = true
+	}
+	ds := []string{}
+	for d := range digs {
+		ds = append(ds, d)
+	}
+	sort.Strings(ds)
+	subj := map[string]bool{}
+	for _, d := range ds {
+		add("BHEAD "+h.tk.tokDigest(d), h.do("HEAD", "/v2/"+repo+"/blobs/"+d, reqOpt{mode: "head"}))
+		add("MGET "+h.tk.tokDigest(d), h.do("GET", "/v2/"+repo+"/manifests/"+d, reqOpt{mode: "get", hdr: acc}))
+		subj[d] = true
+	}
+	for _, ms := range rs.mans {
+		if ms.subject != "" {
+			subj[ms.subject] = true
+		}
+	}
+	ts := []string{}
+	for t := range rs.tags {
+		ts = append(ts, t)
+	}
+	sort.Strings(ts)
+	for _, t := range ts {
+		add("MGET "+t, h.do("GET", "/v2/"+repo+"/manifests/"+t, reqOpt{mode: "get", hdr: acc}))
+	}
+	if *h.conf.API.Referrer.Enabled {
+		ss := []string{}
+		for s := range subj {
+			ss = append(ss, s)
+		}
+		sort.Strings(ss)
+		for _, s := range ss {
+			r := h.do("GET", "/v2/"+repo+"/referrers/"+s, reqOpt{mode: "refs"})
+			b := splitDescs(r.Body)
+			sort.Strings(b)
+			out = append(out, fmt.Sprintf("REFS %s -> %d %v", h.tk.tokDigest(s), r.Status, b))
+		}
+	}
+	return out
+}
+
+// beforeRestart / afterRestart: closing the server and opening a new one on the same directory yields the same
+// answer to every read request (C10)
+func (m *Monitors) beforeRestart(h *H) {
+	m.pre = map[string][]string{}
+	if kv(h.confToks, "store") != "dir" {
+		return
+	}
+	for repo := range m.repos {
+		if m.routable(h, repo) {
+			m.pre[repo] = m.observe(h, repo)
+		}
+	}
+}
+
+func (m *Monitors) afterRestart(h *H, sameConf bool) {
+	if kv(h.confToks, "store") != "dir" || !sameConf {
+		return
+	}
+	for repo, before := range m.pre {
+		after := m.observe(h, repo)
+		for i := range before {
+			if i < len(after) && before[i] != after[i] {
+				name := "C10.restart-differs"
+				// cause: a manifest deleted by digest that a present index still lists as a child is not found until
+				// the restart and found again after it (the child scan of the index load re-adds it)
+				if f := strings.Fields(before[i]); len(f) >= 4 && f[0] == "MGET" && f[3] == "404" && strings.Contains(after[i], "-> 200") &&
+					m.childOfPresentIndex(h, repo, f[1]) {
+					name = "C10.restart-differs.deleted-child-of-index"
+				}
+				// cause: the child record of an index that was deleted (or whose blob is gone) outlives it in memory and
+				// disappears with the restart: the digest is neither a present manifest nor a child of a present index
+				if f := strings.Fields(before[i]); len(f) >= 4 && f[0] == "MGET" && f[3] == "200" && strings.Contains(after[i], "-> 404") &&
+					!m.childOfPresentIndex(h, repo, f[1]) && !m.presentManifest(h, repo, f[1]) {
+					name = "C10.restart-differs.orphan-child-record"
+				}
+				m.flag(h, name, fmt.Sprintf("%s: before restart %q, after %q", repo, before[i], after[i]))
+				break
+			}
+		}
+	}
+}
+
+// childOfPresentIndex: some index manifest present in the repository lists the digest (token) as a child
+func (m *Monitors) childOfPresentIndex(h *H, repo, tok string) bool {
+	rs := m.repo(repo)
+	for _, ms := range rs.mans {
+		var idx types.Index
+		if json.Unmarshal(ms.raw, &idx) != nil {
+			continue
+		}
+		for _, c := range idx.Manifests {
+			if h.tk.tokDigest(c.Digest.String()) == tok {
+				return true
+			}
+		}
+	}
+	return false
+}
+
+func (m *Monitors) presentManifest(h *H, repo, tok string) bool {
+	for d, ms := range m.repo(repo).mans {
+		if h.tk.tokDigest(d) == tok && !ms.blobGone {
+			return true
+		}
+	}
+	return false
+}
+
+// ---------------------------------------------------------------- C14: nothing under the directory changes
+
+func fsSnapshot(root string) []string {
+	out := []string{}
+	_ = filepath.Walk(root, func(p string, info os.FileInfo, err error) error {
+		if err != nil {
+			return nil
+		}
+		rel, _ := filepath.Rel(root, p)
+		if info.IsDir() {
+			out = append(out, fmt.Sprintf("%s/ mode=%v", rel, info.Mode().Perm()))
+			return nil
+		}
+		b, _ := os.ReadFile(p)
+		out = append(out, fmt.Sprintf("%s size=%d sha=%s mtime=%d mode=%v", rel, info.Size(), digest.FromBytes(b).Encoded()[:16], info.ModTime().UnixNano(), info.Mode().Perm()))
+		return nil
+	})
+	sort.Strings(out)
+	return out
+}
+
+func (m *Monitors) protectedFS(h *H) bool {
+	st := kv(h.confToks, "store")
+	return h.root != "" && (st == "memdir" || (st == "dir" && *h.conf.Storage.ReadOnly))
+}
+
+// fsBaseline: a read-only directory store and a memory store over a directory never create, modify or delete anything
+func (m *Monitors) fsBaseline(h *H) {
+	m.fsBase = nil
+	if m.protectedFS(h) {
+		m.fsBase = fsSnapshot(h.root)
+	}
+}
+
+func (m *Monitors) fsUnchanged(h *H) {
+	if m.fsBase == nil || !m.protectedFS(h) {
+		return
+	}
+	now := fsSnapshot(h.root)
+	if strings.Join(now, "\n") == strings.Join(m.fsBase, "\n") {
+		return
+	}
+	was := map[string]bool{}
+	for _, l := range m.fsBase {
+		was[l] = true
+	}
+	is := map[string]bool{}
+	for _, l := range now {
+		is[l] = true
+		if !was[l] {
+			m.flag(h, "C14.fs-changed", "new or modified: "+l)
+			m.fsBase = now
+			return
+		}
+	}
+	for _, l := range m.fsBase {
+		if !is[l] {
+			m.flag(h, "C14.fs-changed", "removed: "+l)
+			break
+		}
+	}
+	m.fsBase = now
 }
